@@ -13,7 +13,7 @@ import ast
 import os
 from typing import Dict, List, Optional, Set, Tuple
 
-REPO = "/repo/koda_validate"
+REPO = os.path.join(os.environ.get("KODA_REPO", "/repo"), "koda_validate")
 # modules on a validation / derivation path (JSON-schema generation and error rendering are pure
 # functions of their argument checked by C10 / C12 and are not validation)
 MODULES = ["_internal.py", "base.py", "boolean.py", "bytes.py", "coerce.py", "dataclasses.py", "decimal.py",
